@@ -127,6 +127,13 @@ def check_learn(chk, rep, repo):
         err = same.get("X_val")
         for name, t in (("training row", j), ("validation row", err)):
             bad = None
+            r0 = root_object(t) if t is not None else None
+            if t is not None and (t[0] in ("alloc", "list", "listcomp") or (t[0] == "phi") or
+                                  (r0 is not None and r0[0] == "alloc" and r0[1] in ("list", "numpy.array", "numpy.asarray"))):
+                if t[0] != "phi" or any(ev.kind == "call" and ev.name in ("append", "extend") and ev.target[1] == t
+                                        for ev in w.events):
+                    bad = ("a collection of rows is exchanged at once (fancy indexing): when a row occurs twice the "
+                           "assignment is not a sequence of swaps - one sample is lost and another duplicated")
             for s in subterms(t):
                 if s[0] == "call" and s[1] == ("builtin", "int") and len(s[2]) == 1:
                     inner = s[2][0]
